@@ -12,7 +12,7 @@ from ..monitors import structure
 DECIDING_MONITORS = ["C10.merge.post", "C10.merge.refusal"]
 PASSIVE_UNDER_TESTS = True
 RULE = ("1D histograms with 1..40 bins (regular, irregular widths, gapped, edges of large magnitude) and 2-4D histograms with asymmetric shapes, "
-        "weighted contents (errors2 != frequencies), missed values; merge_bins with every amount 1..n+3, on every single axis and on all axes, "
+        "weighted contents (errors2 != frequencies) and squared errors of their own (non-zero where the content is zero), missed values; merge_bins with every amount 1..n+3, on every single axis and on all axes, "
         "in place and copying, and with min_frequency thresholds from 0 to beyond the total; gaps, non-integral and non-positive amounts must "
         "be refused (in place: leaving the histogram unchanged); every call is checked: new bins are unions of runs of adjacent old bins, "
         "contents / errors2 the run sums, other axes / totals / missed / source untouched; non-trivial = amount not dividing the bin count or "
@@ -66,6 +66,13 @@ def one_case(ctx, index, rng: random.Random):
         rows = np.array([gen.data_for_bins(rng, p, n) for p in axes_pairs], dtype=float).T.reshape(n, d)
         w = np.asarray([rng.randint(1, 24) / 8 for _ in range(n)], dtype=float)
         h = physt.h(rows, [np.array(p) for p in axes_pairs], weights=w, axis_names=[f"a{i}" for i in range(d)])
+    custom = False
+    if rng.random() < 0.35:
+        # squared errors of their own (background subtraction, explicit errors): also non-zero where the content is zero
+        e2 = np.asarray([rng.randint(0, 16) / 4 for _ in range(int(np.prod(shape)))], dtype=float).reshape(shape)
+        with attach.quiet():
+            h.errors2 = e2
+        custom = True
     mode = rng.choice(["amount", "amount", "amount", "min_frequency", "bad_amount"])
     axis = rng.choice([None] + list(range(d))) if d > 1 else rng.choice([None, 0])
     if axis is not None and d > 1 and rng.random() < 0.4:
@@ -102,7 +109,7 @@ def one_case(ctx, index, rng: random.Random):
         pass  # judged by the per-call monitor
     nontrivial = (amount is not None and isinstance(amount, int) and shape[0] % max(amount, 1) != 0) or kind in ("irregular", "gapped", "gapped_large") or (d > 1 and axis is not None)
     rec.case([desc, np.asarray(h.frequencies).ravel()[:50].tolist(), [np.asarray(b).ravel()[:20].tolist() for b in ([h.bins] if d == 1 else h.bins)]],
-             bool(nontrivial), cls=f"{d}d/{kind}/{mode}{'/inplace' if inplace else ''}", sample={**desc, "total": float(h.total)})
+             bool(nontrivial), cls=f"{d}d/{kind}/{mode}{'/inplace' if inplace else ''}{'/custom_errors' if custom else ''}", sample={**desc, "total": float(h.total)})
 
 
 def run(ctx):
